@@ -110,6 +110,8 @@ def split_mps_tensor(
                 keep = max(len(s_vec) - idx, min_keep)
                 break
             discard = next_discard
+        # the bond cap also applies to the rank chosen by the discarded-weight rule
+        keep = max(min(keep, sim_params.max_bond_dim), min_keep)
     elif sim_params.trunc_mode == "relative":
         smax = s_vec[0]
         keep = 0 if smax == 0 else int(np.sum((s_vec / smax) >= sim_params.threshold))
